@@ -426,6 +426,11 @@ impl PatchChain {
             .par_iter()
             .map(|(path, priority)| {
                 let path_ref = path.as_ref();
+                #[cfg(warcraft_rs_verif)]
+                {
+                    crate::verif_hooks::maybe_delay();
+                    crate::verif_hooks::task_event("open", &path_ref.to_string_lossy());
+                }
                 Archive::open(path_ref).map(|archive| ChainEntry {
                     archive,
                     priority: *priority,
@@ -465,6 +470,11 @@ impl PatchChain {
             .par_iter()
             .map(|(path, priority)| {
                 let path_ref = path.as_ref();
+                #[cfg(warcraft_rs_verif)]
+                {
+                    crate::verif_hooks::maybe_delay();
+                    crate::verif_hooks::task_event("open", &path_ref.to_string_lossy());
+                }
                 Archive::open(path_ref).map(|archive| ChainEntry {
                     archive,
                     priority: *priority,
